@@ -143,6 +143,21 @@ pub fn match_expr(pat: &Expr, e: &Expr, b: &mut HashMap<String, Expr>) -> bool {
                 }
         }
         (Expr::Try(p), Expr::Try(x)) => match_expr(&p.expr, &x.expr, b),
+        (Expr::Closure(p), Expr::Closure(x)) => {
+            // closures are compared literally, ignoring the ordinal marker the weaver put into the body
+            let strip = |t: String| -> String {
+                let mut out = String::new();
+                let mut rest = t.as_str();
+                while let Some(i) = rest.find("__vp_closure!(") {
+                    out.push_str(&rest[..i]);
+                    let after = &rest[i..];
+                    match after.find(");") { Some(j) => rest = &after[j + 2..], None => rest = "" }
+                }
+                out.push_str(rest);
+                out.replace("{", "").replace("}", "")
+            };
+            strip(norm(p.to_token_stream())) == strip(norm(x.to_token_stream()))
+        }
         (Expr::Tuple(p), Expr::Tuple(x)) => p.elems.len() == x.elems.len() && p.elems.iter().zip(x.elems.iter()).all(|(a, c)| match_expr(a, c, b)),
         _ => norm(pat.to_token_stream()) == norm(e.to_token_stream()),
     }
